@@ -80,7 +80,7 @@ func (reg TXTStatus) Fields() []Field {
 
 // SENTER.DONE.STS (0)
 func (reg TXTStatus) SEnterDone() bool {
-	return reg*(1<<0) != 0
+	return reg&(1<<0) != 0
 }
 
 // SEXIT.DONE.STS (1)
